@@ -25,3 +25,153 @@ Example C04_nonvacuous :
                         {| op := 15; args := [] |} ] |} in
   load (emit_bin [f]) = Some [f].
 Proof. vm_compute. reflexivity. Qed.
+
+(* ------------------------------------------------------------------------------------------
+   UTF-8: the statements above are about files as lists of Unicode scalars; the real writer
+   writes a Rust String (= `encode` of its scalars) and the real loader reads BYTES.  What used to
+   be an assumption ("UTF-8 is a bijection between scalar sequences and their encodings that maps
+   only U+0000 to a zero byte") is proved in Codec/Utf8.v, and the byte-level loader is connected
+   to the scalar-level model in Codec/Utf8Proofs.v. *)
+From MS Require Import Codec.Utf8 Codec.Utf8Proofs.
+
+(* String::from_utf8 (String::into_bytes s) = Ok s, for ALL strings *)
+Check decode_encode : forall s, scalars s -> decode (encode s) = Some s.
+Theorem C04_utf8_decode_encode : forall s, scalars s -> decode (encode s) = Some s.
+Proof. exact decode_encode. Qed.
+Print Assumptions C04_utf8_decode_encode.
+
+Check encode_injective : forall s t, scalars s -> scalars t -> encode s = encode t -> s = t.
+Theorem C04_utf8_encode_injective : forall s t, scalars s -> scalars t -> encode s = encode t -> s = t.
+Proof. exact encode_injective. Qed.
+Print Assumptions C04_utf8_encode_injective.
+
+(* the strict decoder accepts only canonical encodings of scalar strings (no overlong forms, no
+   surrogates, nothing above 0x10FFFF, no truncated or stray continuation bytes): it is THE
+   inverse of encode on its domain *)
+Check encode_decode : forall b s, decode b = Some s -> encode s = b.
+Theorem C04_utf8_encode_decode : forall b s, decode b = Some s -> encode s = b.
+Proof. exact encode_decode. Qed.
+Print Assumptions C04_utf8_encode_decode.
+
+Check decode_spec : forall b s, decode b = Some s <-> (scalars s /\ encode s = b).
+Theorem C04_utf8_decode_spec : forall b s, decode b = Some s <-> (scalars s /\ encode s = b).
+Proof. exact decode_spec. Qed.
+Print Assumptions C04_utf8_decode_spec.
+
+(* from_utf8_lossy coincides with from_utf8 on valid input (the loader uses it for arguments) *)
+Check decode_lossy_valid : forall b s, decode b = Some s -> decode_lossy b = s.
+Theorem C04_utf8_lossy_valid : forall b s, decode b = Some s -> decode_lossy b = s.
+Proof. exact decode_lossy_valid. Qed.
+Print Assumptions C04_utf8_lossy_valid.
+
+Check encode_bytes : forall s, scalars s -> Forall (fun b => b < 256) (encode s).
+Theorem C04_utf8_encode_bytes : forall s, scalars s -> Forall (fun b => b < 256) (encode s).
+Proof. exact encode_bytes. Qed.
+Print Assumptions C04_utf8_encode_bytes.
+
+Check encode_app : forall a b, encode (a ++ b) = encode a ++ encode b.
+Theorem C04_utf8_encode_app : forall a b, encode (a ++ b) = encode a ++ encode b.
+Proof. exact encode_app. Qed.
+Print Assumptions C04_utf8_encode_app.
+
+(* the arithmetic `encode_char` is core::char::encode_utf8_raw's shifts and masks *)
+Check encode_char_bits_eq : forall c, c <= 0x10FFFF -> encode_char_bits c = encode_char c.
+Theorem C04_utf8_encode_char_bits : forall c, c <= 0x10FFFF -> encode_char_bits c = encode_char c.
+Proof. exact encode_char_bits_eq. Qed.
+Print Assumptions C04_utf8_encode_char_bits.
+
+(* THE separator lemma: a zero byte occurs in an encoding only as the encoding of U+0000 ... *)
+Check zero_byte_iff : forall s, In 0 (encode s) <-> In 0 s.
+Theorem C04_utf8_zero_byte_iff : forall s, In 0 (encode s) <-> In 0 s.
+Proof. exact zero_byte_iff. Qed.
+Print Assumptions C04_utf8_zero_byte_iff.
+
+(* ... and more generally any ASCII byte (`f`, `e`, space, quote, backslash, the opcodes) occurs in
+   an encoding exactly where that ASCII scalar occurs in the string: every byte of a multi-byte
+   sequence is >= 0x80.  (Holds for arbitrary N lists, no `scalars` hypothesis needed.) *)
+Check ascii_byte_iff : forall s b, b < 128 -> (In b (encode s) <-> In b s).
+Theorem C04_utf8_ascii_byte_iff : forall s b, b < 128 -> (In b (encode s) <-> In b s).
+Proof. exact ascii_byte_iff. Qed.
+Print Assumptions C04_utf8_ascii_byte_iff.
+
+(* read_until(0x00) on the encoded file = the encodings of the scalar-level records *)
+Check records_bytes_encode : forall f, records_bytes (encode f) = map encode (records f).
+Theorem C04_records_bytes_encode : forall f, records_bytes (encode f) = map encode (records f).
+Proof. exact records_bytes_encode. Qed.
+Print Assumptions C04_records_bytes_encode.
+
+Check records_bytes_decode : forall f, scalars f ->
+  map decode (records_bytes (encode f)) = map Some (records f).
+Theorem C04_records_bytes_decode : forall f, scalars f ->
+  map decode (records_bytes (encode f)) = map Some (records f).
+Proof. exact records_bytes_decode. Qed.
+Print Assumptions C04_records_bytes_decode.
+
+(* the byte-level loader (byte patterns, from_utf8 on the name, from_utf8_lossy on the arguments)
+   run on an encoded file is the scalar-level loader run on the file, provided every record starts
+   with an ASCII character *)
+Check load_bytes_encode : forall f,
+  Forall scalars (records f) -> Forall ascii_head (records f) -> load_bytes (encode f) = load f.
+Theorem C04_load_bytes_encode : forall f,
+  Forall scalars (records f) -> Forall ascii_head (records f) -> load_bytes (encode f) = load f.
+Proof. exact load_bytes_encode. Qed.
+Print Assumptions C04_load_bytes_encode.
+
+(* loader-on-BYTES (UTF-8 (writer (functions))) = functions, for ALL files of well-formed
+   functions whose names/arguments are Rust Strings and whose opcodes are < 128 (one byte) *)
+Check file_roundtrip_bytes : forall fs : list func,
+  Forall wf_func fs -> Forall wf_func_b fs -> NoDup (names fs) ->
+  load_bytes (encode (emit_bin fs)) = Some fs.
+Theorem C04_file_roundtrip_bytes : forall fs : list func,
+  Forall wf_func fs -> Forall wf_func_b fs -> NoDup (names fs) ->
+  load_bytes (encode (emit_bin fs)) = Some fs.
+Proof. exact file_roundtrip_bytes. Qed.
+Print Assumptions C04_file_roundtrip_bytes.
+
+(* non-vacuity: e-acute (2 bytes), U+2028 (3), U+1F600 (4), NUL inside a string *)
+Example C04_utf8_ex_encode :
+  encode [233] = [0xC3; 0xA9] /\ encode [0x2028] = [0xE2; 0x80; 0xA8] /\
+  encode [0x1F600] = [0xF0; 0x9F; 0x98; 0x80] /\ encode [97; 0; 233; 0] = [97; 0; 0xC3; 0xA9; 0] /\
+  encode [0x7F; 0x80; 0x7FF; 0x800; 0xD7FF; 0xE000; 0xFFFF; 0x10000; 0x10FFFF] =
+    [0x7F; 0xC2;0x80; 0xDF;0xBF; 0xE0;0xA0;0x80; 0xED;0x9F;0xBF; 0xEE;0x80;0x80; 0xEF;0xBF;0xBF;
+     0xF0;0x90;0x80;0x80; 0xF4;0x8F;0xBF;0xBF].
+Proof. vm_compute. repeat split. Qed.
+
+Example C04_utf8_ex_decode :
+  decode [97; 0; 0xC3; 0xA9; 0xE2; 0x80; 0xA8; 0xF0; 0x9F; 0x98; 0x80] = Some [97; 0; 233; 0x2028; 0x1F600].
+Proof. vm_compute. reflexivity. Qed.
+
+(* the strict decoder rejects: overlong 2/3/4-byte forms, a surrogate, > 0x10FFFF, a truncated
+   sequence, a stray continuation byte, a bad continuation byte, 0xFF, a non-byte *)
+Example C04_utf8_ex_reject :
+  map decode [[0xC0; 0x80]; [0xC1; 0xBF]; [0xE0; 0x9F; 0xBF]; [0xF0; 0x8F; 0xBF; 0xBF];
+              [0xED; 0xA0; 0x80]; [0xF4; 0x90; 0x80; 0x80]; [0xE2; 0x80]; [0x80];
+              [0xC3; 0x41]; [0xFF]; [300]] = repeat None 11.
+Proof. vm_compute. reflexivity. Qed.
+
+(* ... where the lossy decoder substitutes U+FFFD per maximal invalid prefix (std's documented
+   behaviour: "Hello \xF0\x90\x80World" -> "Hello \u{FFFD}World") *)
+Example C04_utf8_ex_lossy :
+  decode_lossy [72; 0xF0; 0x90; 0x80; 87] = [72; 0xFFFD; 87] /\
+  decode_lossy [0xC0; 0x80; 0xE2; 0x80; 0x41; 0xED; 0xA0; 0x80] =
+    [0xFFFD; 0xFFFD; 0xFFFD; 0x41; 0xFFFD; 0xFFFD; 0xFFFD].
+Proof. vm_compute. split; reflexivity. Qed.
+
+(* a NUL inside the file splits the byte records exactly where it splits the scalar records *)
+Example C04_utf8_ex_records :
+  records_bytes (encode [102; 32; 233; 0x1F600; 0; 101; 0; 7]) =
+    [[102; 32; 0xC3; 0xA9; 0xF0; 0x9F; 0x98; 0x80; 0]; [101; 0]; [7]].
+Proof. vm_compute. reflexivity. Qed.
+
+(* the byte-level round trip on a function with multi-byte characters in name and arguments;
+   the hypotheses of C04_file_roundtrip_bytes are satisfiable *)
+Example C04_bytes_nonvacuous :
+  let f := {| fname := [97; 46; 109; 109; 109; 35; 233; 0x1F600];
+              body := [ {| op := 7; args := [[34; 92; 32; 9; 10; 13; 110; 114; 116; 233; 8232; 0x1F600]; []] |};
+                        {| op := 15; args := [] |} ] |} in
+  load_bytes (encode (emit_bin [f])) = Some [f] /\
+  existsb (fun b => 128 <=? b) (encode (emit_bin [f])) = true.
+Proof. vm_compute. split; reflexivity. Qed.
+
+(* why opcodes must be < 128 at byte level: `200 as char` is written as two bytes *)
+Check op_128_differs.
